@@ -62,6 +62,12 @@ def npci_cases():
                         if (der or prio) and (msg not in (None, 0x80) or src is None and dest is None and False):
                             pass
                         yield {"dest": dest, "src": src, "msg": msg, "der": der, "prio": prio, "hop": 254, "vendor": 0x1234}
+    # boundary hop counts and vendor ids (0 is a legal, and on the last hop the usual, hop count)
+    for hop in (0, 1, 255):
+        for dest in dests[1:]:
+            yield {"dest": dest, "src": srcs[1], "msg": None, "der": False, "prio": 0, "hop": hop, "vendor": 0}
+    for vendor in (0, 1, 0xFFFF):
+        yield {"dest": None, "src": None, "msg": 0x80, "der": False, "prio": 0, "hop": 255, "vendor": vendor}
 
 
 @rule("C08.R1", "NPCI.encode and NPCI.decode lay the header out as clause 6.2.2 prescribes and agree with each other", floor=10, engines="E4 layout extraction + finite-domain evaluation")
@@ -365,6 +371,11 @@ def _pair(prog, c, eb, db, loopvar=None):
 def _pair_loop(prog, c, eloop, eb, dloop, db, outer_dec):
     problems = []
     lst = eloop.extra                      # e.g. self.iartnNetworkList
+    # the list is started afresh by the decoder (a constructor default or an earlier decode must not leak into it)
+    resets = [i for i in outer_dec.items if i.kind == "store" and i.target == lst and isinstance(i.expr, ast.List) and not i.expr.elts]
+    before_loop = outer_dec.items.index(dloop)
+    if not resets or outer_dec.items.index(resets[0]) > before_loop:
+        problems.append("decode does not reset %s to an empty list before appending (entries of an earlier frame or of the shared constructor default accumulate)" % lst)
     # decode must append to the same list
     apps = [i for i in db.items if i.kind == "call" and ".append(" in i.extra]
     if not apps or not apps[-1].extra.startswith(lst + ".append("):
